@@ -15,6 +15,7 @@ func init() {
 	register(&Prop{ID: "C10", Run: runC10,
 		Technique: "static analysis: reaching condition + enum coverage of the retry reset, must-pass-through in the propagation loop, value-flow of recorded parameters / request ids / node tables, field coverage of the recorder and restorer (go/ssa)",
 		Decided: []string{
+			"the recorded node carries the step as it ran: every store into model.Node.Step takes a parameter or a Step field read (C10.record-keeps-step)",
 			"the retry constructor reads a node's recorded outputs before that node's Step.OutputVariables is re-pointed to the graph's shared map (C10.outputs-restored)",
 			"the already-running probe refuses a retry only when the live status could not be read or is not `not started` - never on what the recorded run says (C16.probe-table, shared)",
 			"the set of recorded states under which a node is reset, united with the kept states {finished, skipped} and the already-runnable state {not started}, covers every NodeStatus constant (C10.reset-exhaustive)",
@@ -41,6 +42,7 @@ func runC10(e *Env) {
 	c08PersistedFields(e, s)
 	c01Gate(e, s)
 	c16ProbeTable(e) // a retry is refused only on live evidence, never because the recorded run says `running`
+	cFieldVerbatim(e, "C10.record-keeps-step", "the recorded node carries the step exactly as it ran", "internal/persistence/model", "internal/persistence/model.Node", "Step", "Step", "the step written into the run's record is a rewritten copy of the step that ran (masked, normalised): a retry rebuilds its steps from the record, so the re-executed steps no longer run with the recorded variables, parameters and executor options", 2)
 }
 
 func c10Reset(e *Env, s *Sched) {
